@@ -232,6 +232,8 @@ def consteval_arm(prop, tier, seed, cov, violations, inconcl, notes, arms_used, 
         if abacus:
             cmd.append('-DFIXEDMATH_ENABLE_SQRT_ABACUS_ALGO')
         r = V.run(cmd + [src])
+        if r.returncode != 0 and 'error' not in r.stderr:   # killed / resource exhaustion on a loaded machine: one retry
+            r = V.run(cmd + [src])
         return r.returncode, r.stderr
     with ThreadPoolExecutor(V.NCPU) as ex:
         results = list(ex.map(compile_job, jobs))
